@@ -115,11 +115,10 @@ def query_traversal(node, callback, is_table=False, is_target=False, parent_quer
         node.targets = array
 
         if node.cte is not None:
-            array = []
             for cte in node.cte:
-                node_out = query_traversal(cte.query, callback, parent_query=node) or cte
-                array.append(node_out)
-            node.cte = array
+                node_out = query_traversal(cte.query, callback, parent_query=node)
+                if node_out is not None:
+                    cte.query = node_out
 
         if node.where is not None:
             node_out = query_traversal(node.where, callback, parent_query=node)
@@ -172,9 +171,15 @@ def query_traversal(node, callback, is_table=False, is_target=False, parent_quer
             node_out = query_traversal(arg, callback, parent_query=parent_query) or arg
             array.append(node_out)
         node.args = array
+        if isinstance(node, ast.Function) and node.from_arg is not None:
+            node_out = query_traversal(node.from_arg, callback, parent_query=parent_query)
+            if node_out is not None:
+                node.from_arg = node_out
 
     elif isinstance(node, ast.WindowFunction):
-        query_traversal(node.function, callback, parent_query=parent_query)
+        node_out = query_traversal(node.function, callback, parent_query=parent_query)
+        if node_out is not None:
+            node.function = node_out
         if node.partition is not None:
             array = []
             for node2 in node.partition:
@@ -265,6 +270,11 @@ def query_traversal(node, callback, is_table=False, is_target=False, parent_quer
                 node.from_select = node_out
 
     elif isinstance(node, ast.Delete):
+        if node.table is not None:
+            node_out = query_traversal(node.table, callback, is_table=True, parent_query=node)
+            if node_out is not None:
+                node.table = node_out
+
         if node.where is not None:
             node_out = query_traversal(node.where, callback, parent_query=node)
             if node_out is not None:
@@ -277,6 +287,11 @@ def query_traversal(node, callback, is_table=False, is_target=False, parent_quer
                 node.field = node_out
 
     elif isinstance(node, ast.Case):
+        if node.arg is not None:
+            node_out = query_traversal(node.arg, callback, parent_query=parent_query)
+            if node_out is not None:
+                node.arg = node_out
+
         rules = []
         for condition, result in node.rules:
             condition2 = query_traversal(condition, callback, parent_query=parent_query)
